@@ -157,7 +157,7 @@ def rerun_episode(run, case, tag):
                 n = len(e.get("names") or []) or 1
                 sb.align(c["file"], n, c["minf"], c["filter"], c["am"], c["mask"], c["nogap"])
             elif ev == "distance":
-                sb.distance(c["file"], 1, c["minf"], c.get("allow_ambig", False), c.get("threads", 1))
+                sb.distance(c["file"], 1, c["minf"], c.get("allow_ambig", False), c.get("threads", 1), default_minf=c.get("default_minf", False))
         events = sb.events
     finally:
         sb.close()
